@@ -802,6 +802,11 @@ func c12SetErrorFlow(p *Prog, r *Report, rule string) {
 		return true
 	})
 	if lit == nil {
+		// the job is handed to a method that runs it in a goroutine and delivers its error: rw.Produce(func() error {..})
+		if pr := p.createProducer(fi); pr != nil && pr.job != nil {
+			c12SetErrorThroughRunner(p, r, rule, k, fi, pr)
+			return
+		}
 		r.Undecided(rule, k+"#goroutine", p.pos(fi.Decl), "no storing goroutine")
 		return
 	}
@@ -835,4 +840,61 @@ func c12SetErrorFlow(p *Prog, r *Report, rule string) {
 		return
 	}
 	r.Check(res.OK, rule, k+"#set-error", p.pos(sites[0].Call), "the error of Set is delivered to SetError with its class", "the error of Set does not reach the writer: "+res.Detail)
+}
+
+// c12SetErrorThroughRunner: the job returns the error of the store use case's Set with its class, and the runner's
+// goroutine hands a non-nil result of the job to SetError.
+func c12SetErrorThroughRunner(p *Prog, r *Report, rule, k string, fi *FuncInfo, pr *producer) {
+	jf := p.NewFlat(fi.Pkg, pr.job.Body)
+	sites := jf.CallSites(kStoreSet)
+	if len(sites) == 0 {
+		for _, n := range jf.Nodes {
+			if n.Ast == nil {
+				continue
+			}
+			for _, c := range callsIn(n.Ast, false) {
+				if h := p.staticCallee(fi.Pkg, c); h != nil && h.Pkg == fi.Pkg && p.funcCallsDeep(h, p.keysPred(kStoreSet)) {
+					sites = append(sites, jf.bindOf(n, c))
+				}
+			}
+		}
+	}
+	if len(sites) != 1 {
+		r.Viol(rule, k+"#set-error", p.pos(pr.job), fmt.Sprintf("%d calls of the store usecase's Set in the storing job", len(sites)))
+		return
+	}
+	if sites[0].Kind != "assigned" && sites[0].Kind != "returned" {
+		r.Viol(rule, k+"#set-error", p.pos(sites[0].Call), "the error of Set is "+sites[0].Kind)
+		return
+	}
+	ok1, d1 := true, ""
+	if sites[0].Kind == "assigned" {
+		jfi := fi.LitInfo(pr.job, 1)
+		res := jf.errorConsumed(jfi, sites[0].Node, sites[0].ErrVar, flowOpts{Class: true})
+		ok1, d1 = res.OK, res.Detail
+	}
+	// in the runner: err := job(); err != nil -> SetError(err)
+	ri := pr.runner.Pkg.TypesInfo
+	gf := p.NewFlat(pr.runner.Pkg, pr.goLit.Body)
+	ok2, d2 := false, "the runner does not call the job"
+	for _, n := range gf.Nodes {
+		if n.Ast == nil {
+			continue
+		}
+		for _, c := range callsIn(n.Ast, false) {
+			if objOf(ri, c.Fun) != pr.jobParam {
+				continue
+			}
+			bs := gf.bindOf(n, c)
+			if bs.Kind != "assigned" {
+				ok2, d2 = false, "the error of the job is "+bs.Kind+" in "+pr.runner.Key
+				continue
+			}
+			gfi := pr.runner.LitInfo(pr.goLit, 1)
+			res := gf.errorConsumed(gfi, bs.Node, bs.ErrVar, flowOpts{Class: true, Sinks: []string{"(*internal/utils/async.readWriter).SetError"}})
+			ok2, d2 = res.OK, res.Detail
+		}
+	}
+	r.Check(ok1 && ok2, rule, k+"#set-error", p.pos(sites[0].Call), "the error of Set is returned by the job with its class and delivered to SetError by "+pr.runner.Key,
+		"the error of Set does not reach the writer: "+d1+" "+d2)
 }
